@@ -105,7 +105,7 @@ func Versions(o *world.Obs, r *world.Call, beforeSeq int64) []model.Version {
 	sort.Slice(c304, func(i, j int) bool { return c304[i].EndSeq < c304[j].EndSeq })
 	cur := v0
 	for _, c := range c304 {
-		merged := model.Merge304(cur.Header, c.RespHdr)
+		merged := model.Merge304(cur.Header, c.RespHdr, c.EndNs)
 		restarted := model.Version{Status: r.Status, Header: merged, ReqNs: c.StartNs, RespNs: c.EndNs, Why: "304 s" + strconv.Itoa(c.Serial)}
 		keptClock := model.Version{Status: r.Status, Header: merged, ReqNs: cur.ReqNs, RespNs: cur.RespNs, Why: "304 s" + strconv.Itoa(c.Serial) + " (old clock)"}
 		out = append(out, restarted, keptClock)
@@ -154,3 +154,17 @@ func firstLine(s string) string {
 }
 
 func fmtInt(n int64) string { return strconv.FormatInt(n, 10) }
+
+// Tampered reports whether the scenario alters stored bytes or store results behind the
+// cache's back (fault plan or corrupt steps).
+func Tampered(o *world.Obs) bool {
+	if len(o.Sc.Faults) > 0 {
+		return true
+	}
+	for _, st := range o.Sc.Steps {
+		if st.Op == "corrupt" {
+			return true
+		}
+	}
+	return false
+}
